@@ -171,6 +171,7 @@ void rsValuesFacet::ResetFor(const EntityUID target) {
 void rsValuesFacet::PruneStructure(const EntityUID target) {
   const auto oldData = SDataFor(target);
   if (!oldData.has_value()) {
+    ResetFor(target); // Note: a structure that has just become typed starts from the same value as a new one
     return;
   } 
   const auto& typeValue = core.GetParse(target).exprType;
